@@ -44,6 +44,30 @@ def run(chk):
                 'thread are lost or appear depending on timing' % T.show(b), LOWER, b['l'])
     if not bad:
         chk.ok('C19-R1', 'lower', sample='%d take() site(s), all after join_all / join_children' % dom.good_exits)
+    # ---- R1b: join() really waits, except for the recognised reasons
+    chk.rule('C19-R1b', 'SharedPromises::join returns without waiting only for a recognised reason: the target is the current thread or one of its ancestors (cycle), the current '
+                        'module does not *transitively* depend on the target (deep_depends_on), the build is sequential, or the promise is already joined')
+    PROM = 'crates/erg_compiler/module/promise.rs'
+    j = fx.fn(PROM, 'SharedPromises::join')
+    nret = 0
+    for n, ctx in T.walk_ctx(j['body']):
+        if n.get('k') != 'Ret':
+            continue
+        conds = [T.show(c[1]).replace(' ', '') for c in ctx if c[0] == 'if' and c[2] is True]
+        if any('DEBUG_MODE' in c for c in conds) and len(conds) > 1:
+            conds = [c for c in conds if 'DEBUG_MODE' not in c]
+        nret += 1
+        cs = ' && '.join(conds)
+        if 'ancestors(' in cs or 'deep_depends_on(' in cs and '!self.graph.deep_depends_on' in cs or '!PARALLEL' in cs or 'is_joined(' in cs or 'entries().contains' in cs:
+            chk.ok('C19-R1b', cs[:60], sample='join: early return under `%s`' % cs[:80])
+        elif '.depends_on(' in cs:
+            chk.bad('C19-R1b', 'SharedPromises::join', 'skip:direct-dependency', 'join() skips waiting when the current module does not *directly* depend on the target (`%s`): '
+                    'threads of transitively imported modules are not joined and their diagnostics can be lost' % cs[:90], PROM, n['l'])
+        else:
+            chk.lost.append('SharedPromises::join: unrecognised reason for returning without waiting: %s' % cs[:100])
+    chk.floor('early returns of join()', nret, 3)
+    waits = [c for c in T.calls(j['body']) if (T.callee(c) or '').endswith('safe_yield')]
+    chk.need(len(waits) >= 1, 'SharedPromises::join no longer waits (no safe_yield loop)')
     # ---- R2 / R3 over all functions
     n_iter = n_lets = 0
     for crate in ('erg_common', 'erg_parser', 'erg_compiler'):
